@@ -229,6 +229,41 @@ def run(ctx):
 
     check_parent_gates(rep, prog, E)
 
+    rep.rule("NI-7", "TLVs are queued for forwarding only from Announces that passed the acceptance gate", floor=1)
+    fc.check_forward_gate(rep, prog, "NI-7")
+
+    # ---------------- NI-6: the parent the gates compare against follows the BMCA's choice exactly
+    rep.rule("NI-6", "on S1 a Slave port keeps its SlaveState only when its remote_master equals the new parent as a full "
+                     "PortIdentity (otherwise the sender gates of NI-2/NI-3 compare against a stale parent)", floor=1)
+    try:
+        sp = port("set_recommended_port_state")
+        pvs = df.Prov(sp)
+        n6 = 0
+        for bi, t in mir.iter_terms(sp, "switch"):
+            tr = df.strip(pvs.op_tree(t["discr"]))
+            alts = [df.strip(x) for x in tr[1]] if tr[0] == "phi" else [tr]
+            for a in alts:
+                if "remote_master(" not in df.canon(a, sp):
+                    continue
+                n6 += 1
+                ok = a[0] == "call" and a[2] in ("ne", "eq") and len(a[3]) == 2
+                if ok:
+                    x, y = df.strip(a[3][0]), df.strip(a[3][1])
+                    ok = x[0] == "call" and x[2] == "remote_master" and \
+                        (df.named_fields(y) or ("",))[-1] == "source_port_identity"
+                if ok:
+                    rep.ok("NI-6", sp.key, "keep SlaveState iff same parent", detail=df.canon(a, sp), where=fc.where(sp, t["sp"][1]))
+                else:
+                    rep.violation("NI-6", sp.key, "keep SlaveState iff same parent",
+                                  "the decision whether an S1 recommendation replaces the SlaveState is `%s`: it must compare the "
+                                  "stored remote_master with the new parent's full source PortIdentity (a parent that moves to "
+                                  "another port of the same clock would leave the sender gates comparing against the old port)"
+                                  % df.canon(a, sp), where=fc.where(sp, t["sp"][1]))
+        if n6 == 0:
+            rep.anchor_missing("NI-6", "no comparison of remote_master() found in set_recommended_port_state")
+    except AnchorMissing as e:
+        rep.anchor_missing("NI-6", str(e))
+
     # ---------------- NI-4
     try:
         ha = port("handle_announce")
